@@ -171,7 +171,9 @@ func (r *Result) Fail(class string, input any, detail string) {
 		}
 	}
 	r.Distribution["oracle_fail:"+class]++
-	if n >= 3 || len(r.Failures) >= r.maxFail {
+	// the FIRST failure of every class is always kept, however many classes there are (a class that is only counted
+	// could never be reported as a violation); the second and third of a class only while the list is short
+	if n >= 3 || (n >= 1 && len(r.Failures) >= r.maxFail) || len(r.Failures) >= 40*r.maxFail {
 		return
 	}
 	r.Failures = append(r.Failures, Failure{Class: class, Input: input, Detail: detail})
